@@ -1,6 +1,6 @@
 (* Non-vacuity: concrete graphs meeting the hypotheses of the C02 theorems. *)
 From V Require Import Common.Base C02.Graph C02.Order C02.SpecESM C02.Wrap C02.Resolve C02.ResolveSpec
-  C02.DataUrl C02.SpecDataUrl C02.OrderProofs C02.OrderEsmProofs C02.ResolveProofs C02.WrapProofs C02.DataUrlProofs C02.Emit C02.EmitProofs C02.ResolveChainProofs.
+  C02.DataUrl C02.SpecDataUrl C02.OrderProofs C02.OrderEsmProofs C02.ResolveProofs C02.WrapProofs C02.DataUrlProofs C02.Emit C02.EmitProofs C02.ResolveChainProofs C02.ResolveDen C02.SpecDenProofs.
 
 (* diamond with a back edge: 1 -> 2,3 ; 2 -> 4 ; 3 -> 4 ; 4 -> 1 (cycle); file 0 is the runtime *)
 Definition ex_graph : graph :=
@@ -114,3 +114,22 @@ Proof.
   split; [right; left; reflexivity|].
   intros k [<-|[<-|[<-|[<-|[]]]]]; cbn; auto; right; lia.
 Qed.
+
+(* ranked graph with a diamond of export stars (the second visit of file 4 hits the resolve set)
+   and a conflict: 1 stars 2 and 3; 2 and 3 star 4; 4 defines x; 3 also defines y, 2 re-exports 4's x as y *)
+Definition ex_den : graph :=
+  [ esm_mod [] [] [] [] false;
+    esm_mod [rec_to 2; rec_to 3] [] [] [0; 1]%nat true;
+    esm_mod [rec_to 4; rec_to 4] [imp 7 1 1] [(2, 7%nat)] [0%nat] false;
+    esm_mod [rec_to 4] [] [(2, 0%nat)] [0%nat] false;
+    esm_mod [] [] [(1, 0%nat)] [] false ].
+Definition ex_den_rank : list nat := [0; 3; 2; 2; 1]%nat.
+Example ex_den_ranked : ranked_all ex_den ex_den_rank = true.
+Proof. vm_compute. reflexivity. Qed.
+Example ex_den_values :
+  spec_resolve_export ex_den 1 1 = Some (RBinding 4 (BName 0)) /\
+  classify_cands (den ex_den ex_den_rank 1 1) = RBinding 4 (BName 0) /\
+  den ex_den ex_den_rank 1 1 = [(4%nat, BName 0); (4%nat, BName 0)] /\
+  spec_resolve_export ex_den 1 2 = Some RAmbiguous /\
+  classify_cands (den ex_den ex_den_rank 1 2) = RAmbiguous.
+Proof. vm_compute. repeat split. Qed.
